@@ -27,7 +27,11 @@ class MemFS:
                 fs.files[w.name_] = w.getvalue()
                 super().close()
 
-        def fake(name, mode='r', *a, **k):
+        def fake(*args, **k):   # signature-transparent: open(file, mode) with either argument positional or by keyword
+            args = list(args)
+            name = args.pop(0) if args else k.pop('file')
+            mode = args.pop(0) if args else k.pop('mode', 'r')
+            a = args
             if isinstance(name, str) and ('w' in mode):
                 return W(name)
             if isinstance(name, str) and name in fs.files:
